@@ -245,6 +245,10 @@ def judge(ctx, case: Dict[str, Any], o: Dict[str, Any]) -> None:
         res = (o.get("result") or {}).get("servers", {})
         for name in names:
             r = res.get(name, {})
+            if name not in o["expect"]:
+                if r.get("error") != "ValueError":
+                    ctx.violation("config_error_type", f"loader path, unknown server {name!r}: {r}", case)
+                continue
             exp = o["expect"][name]
             if r.get("error"):
                 ctx.violation("loader_entry_failed", f"loader path failed for {name!r}: {r}", case)
@@ -252,11 +256,16 @@ def judge(ctx, case: Dict[str, Any], o: Dict[str, Any]) -> None:
             want_t = None if t in ("__absent__", None) else float(t)
             if "timeout" in r and r["timeout"] != want_t:
                 ctx.violation("timeout_value", f"load_config returned timeout {r['timeout']!r}, configured {t!r}", case)
-    if mode == "cli" and o.get("rc") != 0:
+    if mode == "cli" and names[0] not in o["expect"]:
+        if o.get("rc") == 0:
+            ctx.violation("cli_unknown_server_succeeded", f"python -m chuk_mcp reported success for an unknown server: "
+                          f"{o.get('stdout_tail')}", case)
+    elif mode == "cli" and o.get("rc") != 0:
         ctx.violation("cli_failed", f"python -m chuk_mcp exited {o.get('rc')}: {o.get('stdout_tail')}", case)
     if mode == "runner":
         seen = (o.get("result") or {}).get("seen", {})
-        if seen.get("n_streams") != len(names):
+        if seen.get("n_streams") != len([n for n in names if n in o["expect"]]) and \
+                not (seen.get("n_streams") is None and not [n for n in names if n in o["expect"]]):
             ctx.violation("runner_connection_count", f"run_command handed {seen.get('n_streams')} connections to the command, "
                           f"{len(names)} servers requested; output: {o.get('stdout_tail', '')[-300:]}", case)
     ctx.record(case, shape=shape, cls=mode, sample={"mode": mode, "names": names, "observed": shape,
@@ -301,6 +310,11 @@ def run(ctx):
         jobs.append(({"cfg": cfg, "mode": "runner", "names": names}, cfg, "runner", names))
         if len(names) > 1:
             jobs.append(({"cfg": cfg, "mode": "runner", "names": one}, cfg, "runner", one))
+        if i % 3 == 0:
+            ghost = ["no-such-server"]
+            jobs.append(({"cfg": cfg, "mode": "loader", "names": ghost}, cfg, "loader", ghost))
+            jobs.append(({"cfg": cfg, "mode": "cli", "names": ghost}, cfg, "cli", ghost))
+            jobs.append(({"cfg": cfg, "mode": "runner", "names": ghost + one}, cfg, "runner", ghost + one))
     with cf.ThreadPoolExecutor(min(12, os.cpu_count() or 4)) as ex:
         futs = {}
         for case, cfg, mode, names in jobs:
